@@ -165,7 +165,15 @@ pub fn fake_rsync(args: &[String]) -> i32 {
             let _ = writeln!(f, "{src}");
         }
     }
-    let rel = src.strip_prefix("rsync://").unwrap_or(src);
+    {
+        // (source, destination) pairs for the checks that look at where a module is copied to
+        use std::io::Write;
+        if let Ok(mut f) = std::fs::OpenOptions::new().create(true).append(true).open(root.join("rsync-dest.log")) {
+            let _ = writeln!(f, "{src}\t{}", dst.display());
+        }
+    }
+    // the scheme is case-insensitive (routinator passes it on the way the URI spelled it)
+    let rel = if src.len() >= 8 && src[..8].eq_ignore_ascii_case("rsync://") { &src[8..] } else { src.as_str() };
     let key: String = rel.chars().map(|c| if c == '/' { '_' } else { c }).collect();
     if let Ok(code) = std::fs::read_to_string(root.join("fail").join(&key)) {
         eprintln!("fake rsync: configured failure for {src}");
